@@ -15,6 +15,14 @@ Fixpoint esc_close (s : str) : str :=
   | _ => s
   end.
 
+(* `while text.contains("\n\n") { text = text.replace("\n\n", "\n *\n") }`: a newline followed by a newline gets ` *`
+   in between (a run of k newlines becomes a newline followed by k-1 times ` *` newline) *)
+Fixpoint fill_blank (s : str) : str :=
+  match s with
+  | c1 :: ((c2 :: _) as t) => if (c1 =? nl) && (c2 =? nl) then nl :: 32 :: star :: fill_blank t else c1 :: fill_blank t
+  | _ => s
+  end.
+
 Definition escape_doc (s : str) : str :=
   let t := esc_close s in
   match t with
@@ -24,7 +32,7 @@ Definition escape_doc (s : str) : str :=
 
 Definition doc_line (l : str) : str := lit " *" ++ l.
 
-Definition parse_docs (ls : list str) : str :=
+Definition parse_docs_raw (ls : list str) : str :=
   let ls := map escape_doc ls in
   match ls with
   | [] => []
@@ -33,3 +41,6 @@ Definition parse_docs (ls : list str) : str :=
       else lit "/**" ++ [nl] ++ doc_line one ++ [nl] ++ lit " */" ++ [nl]
   | _ => lit "/**" ++ [nl] ++ join [nl] (map doc_line ls) ++ [nl] ++ lit " */" ++ [nl]
   end.
+
+(* the whole block goes through the blank-line fill: an exported file separates declarations by an empty line *)
+Definition parse_docs (ls : list str) : str := fill_blank (parse_docs_raw ls).
